@@ -19,7 +19,13 @@ public:
     explicit StringBox(std::string s)
     {
         lines_.push_back(s);
-        width_ = s.length();
+        // display width: UTF-8 code points, not bytes
+        width_ = 0;
+        for (unsigned char c : s) {
+            if ((c & 0xC0) != 0x80) {
+                width_++;
+            }
+        }
     }
 
     StringBox(std::string s, std::size_t width)
